@@ -292,6 +292,12 @@ var c14Spacing = core.Mon(c14, "spacing", func(w *core.W, c *SpacingCase) {
 	if len(c.Lex) >= 3 {
 		w.Nontrivial(string(src))
 	}
+	if c.Base == "REJECT" {
+		if err == nil {
+			w.Violation("spacing", "C14/line-break-before-postfix-accepted", c, "syntax error", "accepted", fmt.Sprintf("%q", clipS(string(src), 200)))
+		}
+		return
+	}
 	if err != nil {
 		w.Violation("spacing", "C14/spacing-changes-outcome", c, c.Base, err.Error(), fmt.Sprintf("re-spaced program rejected: %q", clipS(string(src), 200)))
 		return
@@ -457,6 +463,26 @@ func runC14(w *core.W) {
 				c.Sep = gen.Layout(r, f, 2)
 			}
 			c14Spacing(w, c)
+		}
+		// the exception of the statement: a line break right before '.', '!.' or a call's '(' is not insignificant
+		var at []int
+		for j := range f.Lex {
+			if f.Postfix[j] {
+				at = append(at, j)
+			}
+		}
+		if len(at) > 0 {
+			sep := gen.Layout(r, f, 1)
+			sep[at[r.Intn(len(at))]] = gen.BreakSeps[r.Intn(len(gen.BreakSeps))]
+			src := []byte(ref.JoinLexemes(f.Lex, sep))
+			var err2 error
+			core.Call(func() { _, err2 = formula.ParseSourceCode(src) })
+			w.Eval(1)
+			w.Count("postfix_break_cases")
+			if err2 == nil && ref.Parse(src).Verdict == ref.Reject {
+				w.Violation("spacing", "C14/line-break-before-postfix-accepted", &SpacingCase{Lex: f.Lex, Sep: sep, Base: "REJECT"}, "syntax error", "accepted",
+					fmt.Sprintf("a line break before '.', '!.' or a call's '(' must not be accepted: %q", clipS(string(src), 200)))
+			}
 		}
 		w.Count("spacing_programs")
 		if w.Counter("spacing_programs")%997 == 1 {
